@@ -18,7 +18,8 @@ ACTIONS = ("Swap", "SwapMismatch", "Add", "AddOccupied", "RemoveAsm", "Discharge
 
 # the order in which observation fields are compared; the first differing field names the violation key
 FIELDS = ("err", "children", "where", "loc", "byLoc", "byLocSize", "sfp", "slot", "num", "nextNum", "asmFound", "asmDead",
-          "blkFound", "blkDead", "blocks", "bowner", "bk", "bname", "content", "moves", "label", "q")
+          "blkFound", "blkDead", "blocks", "bowner", "bk", "bname", "content", "moves", "label", "q",
+          "names", "order", "zones", "all", "union", "find", "dups")
 LABEL_DB, LABEL_SFP = -1, -2
 
 _BNAME = re.compile(r"^B(-?\d+)-(\d+)$")
@@ -350,8 +351,9 @@ def replay_all(graph, adapter, select=None):
         root = pre[0]["from"] if pre else out[0]["from"]
         pre_acts = [p["act"] for p in pre]
 
-        def fresh():
-            """a world standing in the source state; every step of the way there is compared with the specification
+        def fresh(probe=False):
+            """a world standing in the source state (probe: the observables are also read after every step of the way,
+            so that histories with and without intermediate look-ups are both run); every step of the way there is compared with the specification
             (with sampling, a tree edge may not have been judged on its own): the first step that differs is the
             one reported, and nothing below it is judged"""
             w = adapter.build(root)
@@ -362,6 +364,8 @@ def replay_all(graph, adapter, select=None):
                     if judge(p, adapter.project(w), pre_acts[: i + 1], root):
                         raise BadPrefix()
                     checked.add(id(p))
+                elif probe:
+                    adapter.project(w)
             return w
 
         src_obs = pre[-1]["obs"] if pre else None
@@ -381,7 +385,7 @@ def replay_all(graph, adapter, select=None):
             src_q = loops[0]["qto"] if loops else None
             for n, e in enumerate(moves):
                 if n > 0:
-                    w, done = fresh(), []
+                    w, done = fresh(probe=(n % 2 == 0)), []
                     if n % 2 == 1 and src_q is not None:
                         # every other move is preceded by a look-up in the source state (the first one follows all
                         # the refusals and look-ups made above), the rest by none: both kinds of history are run
@@ -773,6 +777,8 @@ def run(rep, tier, seed):
             t0 = traces[0]
             rep.sample({"kind": "trace", "id": t0["id"], "track": t0["track"], "sflags": t0["sflags"],
                         "calls": [e["a"] for e in t0["ev"][:6]]})
+    # 4. zones (growth beyond the listed clauses): Core.zones stays truthful across zone edits and fuel moves
+    zones_stage(rep, tier)
     rep.assume(
         "operation alphabet: swapAssemblies, swapCascade (distinct in-core assemblies), dischargeSwap (incoming fresh, "
         "pooled or previously purged), Core.add with a locator of the core grid (fresh or previously purged assembly), "
@@ -790,7 +796,8 @@ def run(rep, tier, seed):
 def replay(payload):
     direction = payload.get("direction")
     if direction == "replay":
-        ad = CoreAdapter(payload["config"], geom=payload.get("geom", "hex"), symmetry=payload.get("symmetry", "full"))
+        cls = ZonesAdapter if payload.get("stage") == "zones" else CoreAdapter
+        ad = cls(payload["config"], geom=payload.get("geom", "hex"), symmetry=payload.get("symmetry", "full"))
         w = ad.build(payload["root"], regen=payload.get("regen", True))
         for a in payload["behaviour"]:
             ad.apply(w, a)
@@ -825,6 +832,162 @@ def replay(payload):
     print("replay of direction=%s: see payload (TLC trace)" % direction)
     print(payload.get("trace", "")[:4000] if isinstance(payload.get("trace"), str) else "")
     return 0
+
+
+# ------------------------------------------------------------------------------------------------------------
+# zones stage: spec/core/Zones.tla replayed into the real Zone / Zones objects of a generated core
+# ------------------------------------------------------------------------------------------------------------
+ZONE_ACTIONS = ("AddZone", "AddZoneDup", "RemoveZone", "RemoveZoneAbsent", "AddLoc", "AddLocs", "RemoveLoc",
+                "RemoveLocAbsent", "RemoveLocs", "AddItem", "AddItemWrongType", "RemoveItem", "RemoveItemAbsent",
+                "CheckDuplicates", "GetMissing", "SortZones", "Swap", "DischargeSwap", "Remove", "Add")
+
+
+class ZonesAdapter(CoreAdapter):
+    """the FuelShuffle core plus its Core.zones collection; location indices <-> the core's location labels"""
+
+    def build(self, root, regen=True):
+        w = CoreAdapter.build(self, root["core"], regen)
+        from armi.reactor import zones
+
+        w.zmod = zones
+        w.inv = {l: lab for lab, l in w.labels.items()}
+        by_rank = dict(zip(self.cfg["znames"], root["zlocs"]))  # ZVars.zlocs is listed in name order
+        for nm in root["order"]:  # the zones the history starts with, defined in this order
+            w.core.zones.addZone(zones.Zone(nm, [w.inv[l] for l in by_rank[nm]]))
+        return w
+
+    def apply(self, w, a):
+        n = a["n"]
+        if n in ("Swap", "DischargeSwap", "Remove", "Add"):
+            return CoreAdapter.apply(self, w, a)
+        Z = w.core.zones
+        lab = w.inv
+        w.err, w.exc, w.last = "", "", n
+        try:
+            if n == "AddZone":
+                Z.addZone(w.zmod.Zone(a["z"], [lab[l] for l in a["s"]]))
+            elif n == "AddZoneDup":
+                Z.addZone(w.zmod.Zone(a["z"]))
+            elif n in ("RemoveZone", "RemoveZoneAbsent"):
+                Z.removeZone(a["z"])
+            elif n == "AddLoc":
+                Z[a["z"]].addLoc(lab[a["l"]])
+            elif n == "AddLocs":
+                Z[a["z"]].addLocs([lab[l] for l in a["ls"]])
+            elif n in ("RemoveLoc", "RemoveLocAbsent"):
+                Z[a["z"]].removeLoc(lab[a["l"]])
+            elif n == "RemoveLocs":
+                Z[a["z"]].removeLocs([lab[l] for l in a["ls"]])
+            elif n == "AddItem":
+                Z[a["z"]].addItem(w.asm[a["a"]])
+            elif n == "AddItemWrongType":
+                Z[a["z"]].addItem(next(iter(w.core))[0])  # a Block handed to a zone of assemblies
+            elif n in ("RemoveItem", "RemoveItemAbsent"):
+                Z[a["z"]].removeItem(w.asm[a["a"]])
+            elif n == "CheckDuplicates":
+                Z.checkDuplicates()
+            elif n == "GetMissing":
+                Z.getZoneLocations([a["z"]])
+            elif n == "SortZones":
+                Z.sortZones(reverse=bool(a["rev"]))
+            else:
+                raise tlc.MachineryError("unknown zones action %r" % (a,))
+        except tlc.MachineryError:
+            raise
+        except Exception as ex:
+            w.err, w.exc = "refused", type(ex).__name__
+        return w.err
+
+    def project(self, w):
+        import ast
+
+        Z = w.core.zones
+        idx = lambda label: w.labels.get(label, BAD)  # noqa: E731
+        core_list = list(w.core)
+        ids = sorted(w.asm)
+        loc = []
+        for k in ids:
+            sl = w.asm[k].spatialLocator
+            loc.append(w.loc_index.get((int(sl.i), int(sl.j)), -1) if sl is not None and sl.grid is w.core.spatialGrid else 0)
+        zs = []
+        for z in Z:  # iteration: by name
+            locs = [idx(x) for x in z]  # iteration: the documented alphabetical order
+            if any((lb in z) != (l in locs) for lb, l in w.labels.items()):
+                locs = [BAD]  # __contains__ disagrees with the iteration
+            zs.append({"name": z.name, "locs": locs, "len": len(z)})
+        names = list(Z.names)
+        if [z["name"] for z in zs] != names or len(Z) != len(names) or any((nm in Z) != (nm in names) for nm in self.cfg["znames"]):
+            names = ["inconsistent"] + names
+        find = []
+        for k in ids:
+            z = Z.findZoneItIsIn(w.asm[k])
+            find.append("" if z is None else z.name)
+        try:
+            Z.checkDuplicates()
+            dups = []
+        except RuntimeError as ex:
+            try:
+                dups = [idx(x) for x in ast.literal_eval(str(ex).split(":", 1)[1].strip())]
+            except Exception:
+                dups = [BAD]
+        return {
+            "children": [w.aid.get(id(a), -99) for a in core_list], "loc": loc,
+            "names": names, "order": list(Z._zones.keys()), "zones": zs,
+            "all": sorted(idx(x) for x in Z.getAllLocations()),
+            "union": sorted(idx(x) for x in Z.getZoneLocations(list(Z.names))),
+            "find": find, "dups": sorted(dups), "err": w.err, "exc": w.exc, "notes": [],
+        }
+
+
+def zones_stage(rep, tier):
+    """TLC on Zones (invariants, action properties, coverage), then every emitted edge on real Zone/Zones objects"""
+    thorough = tier == "thorough"
+    tlc.sany("Zones_mc", MODDIR)
+    cfgfile = "Zones_mc_thorough.cfg" if thorough else "Zones_mc.cfg"
+    res = tlc.run("Zones_mc", cfgfile, MODDIR, want_prints=False, timeout=3000)
+    rep.add_tlc("zones-exhaustive:" + cfgfile, res)
+    if res.violation:
+        rep.violation("zones-tlc:" + res.violation["name"], "TLC: %s violated in Zones (%s)" % (res.violation["name"], cfgfile),
+                      {"direction": "tlc", "cfg": cfgfile, "trace": res.violation["trace"][:20000]})
+    cov = ("AddZone", "AddZoneDup", "RemoveZone", "RemoveZoneAbsent", "AddLoc", "AddLocs", "RemoveLoc", "RemoveLocAbsent",
+           "RemoveLocs", "AddItem", "AddItemWrongType", "RemoveItem", "RemoveItemAbsent", "CheckOk", "CheckDup", "GetMissing",
+           "SortZones", "FuelMove")
+    never = [a for a in cov if res.coverage.get(a, (0, 0))[1] == 0]
+    if never and not res.violation:
+        raise tlc.MachineryError("vacuous: Zones actions never taken: %s" % never)
+    out = {}
+    plans = [("Zones_emit.cfg", (("hex", "full"), ("hex", "third")) if thorough else (("hex", "full"),))]
+    if thorough:
+        plans.append(("Zones_emit_thorough.cfg", (("hex", "full"),)))
+    for ecfg, geoms in plans:
+        eres = tlc.run("Zones_mc", ecfg, MODDIR, workers=1, coverage=False, timeout=3000)
+        rep.add_tlc("zones-edges:" + ecfg, eres)
+        znames = [p["znames"] for p in eres.prints if isinstance(p, dict) and "znames" in p]
+        cfg, g = load_graph(eres)
+        cfg["znames"] = znames[0]
+        missing = set(ZONE_ACTIONS) - {e["act"]["n"] for e in g.edges}
+        if missing:
+            raise tlc.MachineryError("emission of %s lacks actions %s" % (ecfg, sorted(missing)))
+        for geom, symmetry in geoms:  # hex grids: the alphabetical order of the labels is the order of the indices
+            ad = ZonesAdapter(cfg, geom=geom, symmetry=symmetry)
+            stats, divs = replay_all(g, ad)
+            if stats["replayed"] == 0:
+                raise tlc.MachineryError("empty zones replay")
+            out["%s:%s-%s" % (ecfg, geom, symmetry)] = dict(stats, edges_in_graph=len(g.edges), states_in_graph=g.states())
+            rep.replayed += stats["replayed"]
+            rep.evaluations += stats["replayed"]
+            rep.nontrivial += stats["nontrivial"]
+            for d in divs:
+                rep.violation("zones:%s:.%s" % (d["action"]["n"], d["field"]),
+                              "real Zone/Zones diverge from the Zones specification after %s: %s%s" % (
+                                  json.dumps(d["action"]), d["first_difference"],
+                                  (" (raised %s)" % d["observed"]["exc"]) if d["observed"].get("exc") else ""),
+                              dict(d, direction="replay", stage="zones", config=cfg, geom=geom, symmetry=symmetry))
+    rep.extra["zones"] = out
+    if "every edge of the Zones state graph" not in " ".join(rep.rules):
+        rep.rules.append("zones: every edge of the Zones state graph (zone API calls, refusals, fuel moves) is executed on the "
+                         "real Zone/Zones objects of a generated core; all observables compared after every step")
+    return cfg, g
 
 
 # ------------------------------------------------------------------------------------------------------------
@@ -898,6 +1061,28 @@ def mutants():
     ]
 
 
+def zone_mutants():
+    armi_ready()
+    from armi.reactor.zones import Zone, Zones
+
+    return [
+        ("findZoneItIsIn remembers where it saw the assembly", Zones, "findZoneItIsIn", "aLoc = a.getLocation()",
+         "aLoc = self.__dict__.setdefault('_seen', {}).setdefault(a.getName(), a.getLocation())"),
+        ("checkDuplicates never finds a duplicate", Zones, "checkDuplicates",
+         "if len(allLocs) == len(set(allLocs)):", "if len(allLocs) >= len(set(allLocs)):"),
+        ("addZone overwrites a zone of the same name", Zones, "addZone", "if zone.name in self._zones:", "if False:"),
+        ("removeLoc ignores a missing location", Zone, "removeLoc", "self.locs.remove(loc)", "self.locs.discard(loc)"),
+        ("sortZones ignores reverse", Zones, "sortZones", "reverse=reverse", "reverse=False"),
+        ("getZoneLocations returns the last zone only", Zones, "getZoneLocations",
+         "zoneLocs.update(thisZoneLocs)", "zoneLocs = thisZoneLocs"),
+    ]
+
+
+def _zones_keys(zg, zcfg):
+    stats, divs = replay_all(zg, ZonesAdapter(zcfg, geom="hex", symmetry="full"))
+    return {"zones:%s:.%s" % (d["action"]["n"], d["field"]) for d in divs}
+
+
 def _mini_check(g, cfg, tcfg, seed, with_traces=True):
     """replay keys, trace keys of a reduced run (roots + sampled states on two geometries; a few recorded histories)"""
     from harness.report import Report
@@ -937,6 +1122,20 @@ def selftest():
         ok = bool(nr or nt)
         missed += 0 if ok else 1
         print("%s  %-58s replay:%s trace:%s" % ("caught" if ok else "MISSED", title, nr[:3] or "-", nt[:3] or "-"))
+    zres = tlc.run("Zones_mc", "Zones_emit.cfg", MODDIR, workers=1, coverage=False, timeout=3000)
+    zcfg, zg = load_graph(zres)
+    zcfg["znames"] = [p["znames"] for p in zres.prints if isinstance(p, dict) and "znames" in p][0]
+    zbase = _zones_keys(zg, zcfg)
+    print("zones baseline keys: %s" % sorted(zbase))
+    for title, owner, name, old, new in zone_mutants():
+        undo = _mutate(owner, name, old, new)
+        try:
+            kz = _zones_keys(zg, zcfg)
+        finally:
+            undo()
+        nz = sorted(kz - zbase)
+        missed += 0 if nz else 1
+        print("%s  %-58s zones:%s" % ("caught" if nz else "MISSED", title, nz[:3] or "-"))
     # the trace validator itself: a corrupted field and a dropped event must be rejected
     ad = CoreAdapter(tcfg)
     good = [t for t in record_traces(ad, 8, 30, 5, "v") if not t["sflags"] and len(t["ev"]) > 10][:2]
